@@ -1,7 +1,7 @@
 """C02 - remove deletes exactly the matching points and nothing else (DESIGN 4, C02)."""
 
 from .. import observers, qast, world as W
-from .base import E1Check, viol
+from .base import E1Check, viol, wide_configs
 from .c01 import std_ops
 
 REMOVE_OPS = ("remove", "drop", "h_remove_all", "remove_all")
@@ -42,7 +42,7 @@ class C02(E1Check):
         if self.tier == "quick":
             for c in cfgs:  # quick: file-backed configurations one level shallower
                 c["D"] = 4 if c["storage"] == "mem" else 3
-        return cfgs
+        return cfgs + wide_configs(("mem", "csv"), D=1 if self.tier == "quick" else 2)
 
     def budget(self):
         return 600 if self.tier == "quick" else 2400
